@@ -62,9 +62,9 @@ LEVEL_S = {
     'C04': [('rt', 'full')],
     'C19': [('rt', 'full')],
     'C05': [('from', 'full'), ('from-payload', 'full')],
-    'C06': [('from-malformed', 'full'), ('to-malformed', 'full')],
+    'C06': [('from-malformed', 'full'), ('to-malformed', 'full'), ('to-plan', 'full')],
     'C07': [('from', 'full'), ('from-payload', 'full'), ('to-empty', 'nullness')],
-    'C08': [('echo', 'full')],
+    'C08': [('echo', 'full'), ('to-plan', 'full')],
     'C09': [('refresh', 'full')],
     'C17': [('to-empty', 'hooks'), ('rt', 'hooks'), ('from', 'hooks'), ('from-malformed', 'hooks')],
     'C02': [('to-empty', 'shape'), ('rt', 'full')],
